@@ -409,6 +409,11 @@ def run(ctx):
                 ok, detail = True, "the reader no longer truncates on a decode failure"
         ctx.ob("R-C15.8", jr, "decode-failure-is-the-tail-only-after-looking-at-what-follows", ok, detail)
 
+    # ---- cross-cutting disciplines (rules/discipline.py)
+    from .. import discipline as D
+    # codec and reader errors surface
+    D.error_discipline(ctx, "R-C15.11", scope=lambda f: f.startswith(("journal::entry::", "<journal::", "journal::reader", "journal::batch_reader", "journal::writer::")))
+
     # ---- borrowed obligations (mechanisms owned by other properties that this property's verdict also rests on)
     # items of a batch keep their journal order on replay (same bytes per key)
     ctx.borrow("C04", ["R-C04.8"], "R-C15.9")
